@@ -180,8 +180,14 @@ def kept_total_time(ctx, fi, rule):
       set(norm_text(a) for a in red[0].value.args) == {acc, '%s.end_time' % v}
   # no other update of the accumulator inside the loop (e.g. one restricted to pitched notes)
   ok = ok and len([s for s in U.walk_stmts(loop) for (t, _v, _o) in U.store_targets(s) if isinstance(t, ast.Name) and t.id == acc]) == 1
-  ctx.ob(rule, fi, tt[0] if tt else fn, ok, 'total_time is the max end of the kept notes' if ok else 'total_time is not the max end over exactly the kept notes (a kept note, e.g. a drum note, may end after total_time)',
-         construct='total_time = max end_time of kept notes')
+  # positively identified: the running maximum exists but sits under a further condition inside the keep branch
+  nested = [s for s in U.walk_stmts(keep) if isinstance(s, ast.Assign) and acc is not None and norm_text(s.targets[0]) == acc and s not in keep.body and
+            any(s is x for b_ in [keep.body] for y in b_ for x in ast.walk(y))]
+  ctx.ob(rule, fi, nested[0] if nested else (tt[0] if tt else fn), ok, 'total_time is the max end of the kept notes' if ok else
+         ('the running maximum of the kept notes\' ends is only updated under %s: a kept note outside that condition (e.g. a drum note) may end after total_time' %
+          ', '.join(norm_text(t) for t, _p in U.enclosing_tests(fn, nested[0], stop_at=keep)) if nested else
+          'total_time is not the max end over exactly the kept notes (a kept note, e.g. a drum note, may end after total_time)'),
+         construct='total_time = max end_time of kept notes', definite=bool(nested))
 
 
 def has(test, text):
